@@ -44,6 +44,10 @@ def model_dict(m):
     return out
 
 
+def _scale():
+    return int(os.environ.get("PYVC_BUDGET_SCALE", "1") or 1)
+
+
 def small_model(s):
     """Prefer a counter-model whose input parameters are small (replays fast)."""
     try:
@@ -71,19 +75,26 @@ def solve_vc(vc, use_portfolio=True):
     t0 = time.time()
     if isinstance(vc.goal, str) and vc.goal == "SAT":
         s = z3.Solver()
-        s.set("timeout", 20000)
+        s.set("timeout", 20000 * _scale())
         s.add(*vc.pc)
         res = s.check()
         r.backend = "z3"
         r.verdict = ("proved" if res == z3.sat else
                      "vacuous" if res == z3.unsat else "unknown")
+        if r.verdict == "unknown":
+            # satisfiability (vacuity guard): any back end's verdict is enough
+            verdict, backend, _ = portfolio(s)
+            if verdict == "sat":
+                r.verdict, r.backend = "proved", backend
+            elif verdict == "unsat":
+                r.verdict, r.backend = "vacuous", backend
         r.time = time.time() - t0
         return r
     if vc.goal is True:
         r.verdict, r.backend = "proved", "syntactic"
         return r
     s = z3.Solver()
-    s.set("timeout", Z3_FAST_MS)
+    s.set("timeout", Z3_FAST_MS * _scale())
     s.add(*vc.pc)
     if vc.goal is not False:
         s.add(z3.Not(vc.goal))
@@ -175,7 +186,7 @@ def portfolio(solver, budget=None):
 
 
 def portfolio_text(text, budget=None):
-    budget = budget or PORTFOLIO_S
+    budget = budget or PORTFOLIO_S * min(2, _scale())
     text = text.replace("(check-sat)", "")
     d = tempfile.mkdtemp(prefix="pyvc")
     path = os.path.join(d, "q.smt2")
